@@ -580,6 +580,8 @@ void f_unique_mapping (void) {
     {
       push_svalue (v->item + size);
       sv = call_efun_callback (&ftc, 1);
+      if (!sv) /* the named function does not exist (or is not visible): every element gets the key 0 */
+        sv = &const0;
       i = (oi = (unsigned short)svalue_to_int (sv)) & mask;
       if ((uptr = table[i]))
         {
